@@ -418,10 +418,15 @@ func VerifChoiceStep() {
 	if newW >= 0 {
 		ruler = post.liveOrder()[0]
 	}
-	otherCaseHeld := false // after the step another intent holds the case that does not win
+	// after the step, does an intent other than the requested one hold the losing / the winning case?
+	otherHoldsLoser, otherHoldsWinner := false, false
 	for _, o := range sc.owners {
-		if o != req.owner && post.cas[o] >= 0 && post.cas[o] != newW {
-			otherCaseHeld = true
+		if o != req.owner && post.cas[o] >= 0 {
+			if post.cas[o] == newW {
+				otherHoldsWinner = true
+			} else {
+				otherHoldsLoser = true
+			}
 		}
 	}
 	situation := ""
@@ -430,14 +435,18 @@ func VerifChoiceStep() {
 		// the ruling intent went away or lost precedence; an intent of the other
 		// case, shadowed so far, now holds the highest precedence
 		situation = "/shadowed-case-becomes-winner"
-	case winnerChanges && otherCaseHeld:
+	case winnerChanges && otherHoldsLoser:
 		// the request brings the new winning case; the previous case keeps a live (now shadowed) contribution
 		situation = "/previous-case-still-held-by-another-intent"
+	case winnerChanges && otherHoldsWinner:
+		// the request brings the new winning case, to which a so far shadowed intent contributes as well
+		situation = "/new-case-also-held-by-shadowed-intent"
 	case winnerChanges:
 		situation = "/winner-changes"
-	case newW >= 0 && ruler == req.owner && otherCaseHeld:
-		// the winner does not change: the ruling intent is (re)submitted while another intent holds the other case
-		situation = "/ruler-resubmits-while-other-case-shadowed"
+	case newW >= 0 && oldW == newW && otherHoldsLoser:
+		// the winner does not change; an intent of the winning case is submitted, changed or
+		// deleted while another intent holds the other (shadowed) case
+		situation = "/winner-unchanged-while-other-case-shadowed"
 	}
 
 	// (1) at most one case
@@ -454,7 +463,13 @@ func VerifChoiceStep() {
 			}
 			for _, o := range ord {
 				if post.pres[l.id][o] {
-					verifrt.Assert(dev.pres[l.id], "C08-winning-case-member-on-device"+situation)
+					sit := situation
+					if sit == "" && l.isBool && o != req.owner && !pre.pres[l.id][req.owner] && !req.pres[l.id] {
+						// the winner does not change; the member has a schema default, belongs to
+						// another intent and is not a path of the requested intent (old or new)
+						sit = "/default-leaf-of-another-intent-not-in-request"
+					}
+					verifrt.Assert(dev.pres[l.id], "C08-winning-case-member-on-device"+sit)
 					if dev.pres[l.id] {
 						verifrt.Assert(l.sameVal(dev.tv[l.id], post.val[l.id][o]), "C08-winning-case-member-value"+situation)
 					}
